@@ -79,3 +79,105 @@ def requestObjectOK (issuer : String) (registry : List (String × JWK)) (plain :
 def helperOK (accepted : Bool) : Option String := if accepted then none else some "helper-assertion-rejected"
 
 end C14
+
+/-! ### Endpoints (deepening): an assertion is judged for the issuer the REQUEST is addressed to
+
+A provider may serve several issuers (`op.IssuerFromHost`, `IssuerFromForwardedOrHost`, `NewDynamicOpenIDProvider`).  "Its audience
+contains the provider's issuer" then means the issuer of THIS request - the virtual host / Forwarded header it arrived under - not
+some other tenant's and not the issuer of whichever request the provider happened to serve first. -/
+namespace C14
+
+/-- the assertion settings of `op.Provider`: assertions at most one hour old, one second of tolerance -/
+def providerMaxAgeIAT : Int := 3600 * Go.second
+def providerOffset : Int := Go.second
+
+/-- one request to an endpoint that consumes an assertion (token endpoint: jwt-bearer grant or private_key_jwt client
+    authentication; introspection, revocation, device authorization: client authentication) -/
+structure EndpointReq where
+  reqIssuer : String                    -- the issuer this request is addressed to
+  assertion : Token
+  bearerGrant : Bool := false           -- the assertion is the grant itself (jwt-bearer)
+  requestedScopes : List String := []   -- jwt-bearer: the `scope` parameter
+  refusedScopes : List String := []     -- jwt-bearer: what the storage's scope policy refuses to the assertion's issuer
+  /-- provenance (a fact about the INPUT): minted by `client.SignedJWTProfileAssertion` for a client that is registered for
+      private_key_jwt, the grant material (code, refresh token, device code) presented with it being valid and that client's own -/
+  helperMade : Bool := false
+  /-- the assertion is used for CLIENT AUTHENTICATION (private_key_jwt: token endpoint with the code / refresh / device /
+      token-exchange grant, introspection, revocation, device authorization - everything but the jwt-bearer grant): a client
+      authenticates in the way it is registered; `registeredMethod` = the registered authentication method of the client named
+      as issuer (none: no such client) -/
+  clientAuth : Bool := false
+  registeredMethod : Option String := none
+  /-- apart from the assertion the request is one the endpoint has to honour for the client named as issuer (a fact about the
+      INPUT: that client is registered for private_key_jwt, the provider has the method switched on, the grant material is valid
+      and that client's own) -/
+  contextOK : Bool := false
+
+/-- what the endpoint was observed to do -/
+structure EndpointObs where
+  accepted : Bool                         -- it honoured the assertion (200 with the grant's / the lookup's result)
+  identity : Option String := none        -- the client identity it went on with (from its storage calls), where one shows
+  scopes : Option (List String) := none   -- jwt-bearer: scopes of the granted token
+
+/-- is the single signature of `t` a genuine signature by a key the storage holds, under that key id, for client `id` -/
+def signedByRegisteredKey (registry : List (String × JWK)) (id : String) (t : Token) : Bool :=
+  match t.jws with
+  | some j =>
+    match j.Signatures with
+    | [s] => (clientKeys registry id).keys.any fun k => C02.justifies (clientKeys registry id) j s k
+    | _ => false
+  | none => false
+
+/-- (soundness) an endpoint that honoured the assertion of a request addressed to `reqIssuer`: the assertion proves a client
+    identity FOR THAT ISSUER (signed by a key registered for the client it names as issuer, `reqIssuer` in its audience, within
+    the time window, sub = iss), the endpoint went on as exactly that client, and a jwt-bearer grant carries only scopes that were
+    requested and that the storage's policy does not refuse to that issuer; as client authentication (every endpoint of both
+    routers) an assertion authenticates only a client that is registered for private_key_jwt -/
+def endpointSound (registry : List (String × JWK)) (rq : EndpointReq) (now : Int) (obs : EndpointObs) : Option String :=
+  if !obs.accepted then none else
+  match rq.assertion.middle.bind (·.claims) with
+  | none => some "accepted-undecodable-assertion"
+  | some c =>
+    match assertionOK rq.reqIssuer providerMaxAgeIAT providerOffset true registry rq.assertion now c with
+    | some cl => some cl
+    | none =>
+      if obs.identity.any (· != c.iss) then some "identity-is-not-the-issuer"
+      else if rq.clientAuth && rq.registeredMethod != some Const.AuthMethodPrivateKeyJWT then some "client-not-registered-for-private_key_jwt"
+      else if rq.bearerGrant && obs.scopes.any (fun g => g.any fun s => !rq.requestedScopes.contains s || rq.refusedScopes.contains s)
+        then some "scope-not-validated-for-the-issuer"
+      else none
+
+/-- an assertion PROPERLY MADE for `issuer` (the accepting direction of the statement): well-formed, one signature with an admitted
+    algorithm over the presented payload, genuine under the key the storage hands out for its key id and the client it names as
+    issuer, and every claim condition met with the rounding margin on the safe side; yields the claims and the algorithm -/
+def properlyMade (issuer : String) (maxAgeIAT offset : Int) (registry : List (String × JWK)) (t : Token) (now : Int) : Option (Claims × String) :=
+  if t.segs != 3 then none else
+  match t.middle, t.jws with
+  | some p, some j =>
+    match p.claims, j.Signatures with
+    | some c, [s] =>
+      if Gen.defaultSigAlgs.contains s.Header.Algorithm && p.bytes == j.payload.bytes
+          && (((clientKeys registry c.iss).keys.find? fun k => k.KeyID == s.Header.KeyID).any fun k => C02.genuine j s k)
+          && (claimClauses issuer maxAgeIAT offset true c now halfSecond).all (·.2)
+      then some (c, s.Header.Algorithm) else none
+    | _, _ => none
+  | _, _ => none
+
+/-- (helpers are accepted) an assertion that the library's own client helper made for the ADDRESSED issuer with a key registered
+    for the client must be honoured there -/
+def endpointHelper (registry : List (String × JWK)) (rq : EndpointReq) (obs : EndpointObs) : Option String :=
+  match rq.assertion.middle.bind (·.claims) with
+  | none => none
+  | some c =>
+    if rq.helperMade && c.aud.contains rq.reqIssuer && c.sub == c.iss && signedByRegisteredKey registry c.iss rq.assertion && !obs.accepted
+    then some "helper-assertion-rejected" else none
+
+/-- (completeness, any origin) an assertion that is properly made for the ADDRESSED issuer at both ends of the call - hence at
+    every instant in between: each time condition is monotone - must be honoured when the rest of the request is in order -/
+def endpointProper (registry : List (String × JWK)) (rq : EndpointReq) (now0 now1 : Int) (obs : EndpointObs) : Option String :=
+  if rq.contextOK && !obs.accepted
+      && (properlyMade rq.reqIssuer providerMaxAgeIAT providerOffset registry rq.assertion now0).isSome
+      && (properlyMade rq.reqIssuer providerMaxAgeIAT providerOffset registry rq.assertion now1).isSome
+  then some "proper-assertion-rejected" else none
+
+end C14
